@@ -255,3 +255,15 @@ PROPS["C08"] = dict(
              record_args={"quick": ["-n", 40, "-pts", 40], "thorough": ["-n", 2000, "-pts", 80]}, shards={"quick": 8, "thorough": 16}),
     ],
 )
+
+PROPS["C05"] = dict(
+    family="cdist", specdir="cdist",
+    technique="TLA+ exact lattice for the Student-t CDF (even nu, rational points where the CDF is algebraic; mirror law checked by TLC) replayed into TDist and BetaInc; complete TLA+ specification of DeltaDist and the laws of NormalDist/TDist (range, monotonicity, symmetry, limits, inverse, location-scale, moments, Rand) validated by TLC on recorded evaluations; accuracy off the lattice by differential comparison on TLC-emitted grids",
+    level_text="ContDist.tla: for nu in {2,...,20} and 8 (thorough 18) rational parameters TLC computes x and F(x) exactly in BigInt and checks 0 < F < 1, F > 1/2 iff x > 0 and F(x) + F(-x) = 1; the binder compares TDist.CDF and BetaInc(.,nu/2,1/2) with these values, and on the emitted grids (Mu to +-1e6, Sigma 1e-6..1e6, z to +-40, V 0.1..1e4) NormalDist.CDF with a 600-bit series for Phi, TDist.CDF with gonum's incomplete beta, the PDFs with their closed forms, and the integral of each PDF (Gauss-Legendre) with CDF differences. ContDistTrace.tla: recorded sweeps (x over +-40 standard units incl. +-inf, p down to 1e-300) must satisfy the laws listed in the module; DeltaDist is specified completely (unit step, point mass, constant quantile, NaN outside [0,1])",
+    level_note="Trusted: TLC, binder comparison code, the harness's 600-bit erf series and gonum mathext.RegIncBeta as independent evaluations, math.Exp/Lgamma for PDF closed forms. The 1e-9 accuracy clause at generic real arguments is a differential comparison, not model checking. For V above 1e4 only the laws are checked (statement).",
+    stages=[
+        dict(name="gen", kind="gen", module="ContDist.tla", cfg="ContDist_gen.cfg", consts=dict(Ts={"quick": "TsQuick", "thorough": "TsThorough"})),
+        dict(name="trace", kind="trace", module="ContDistTrace.tla", cfg="ContDistTrace.cfg",
+             record_args={"quick": ["-n", 24, "-pts", 30], "thorough": ["-n", 1600, "-pts", 80]}, shards={"quick": 8, "thorough": 16}),
+    ],
+)
